@@ -290,7 +290,13 @@ class Verifier:
         b = SymBuilder(ctx, self.world)
         if getattr(contract, "assume_nonzero_divisors", False):
             ctx.ghost["assume_nonzero_divisors"] = True
-        call = builder(b)
+        try:
+            call = builder(b)
+        except PyRaise as ex:
+            # the repository code that builds the pre-state raised on this path: no verdict about the function under contract
+            results.append(ObRes(f"{sname}/pre-state", "unknown", "engine", 0, path=list(ctx.decisions),
+                                 detail=f"building the pre-state raised {ex.exc.tname}{ex.exc.args!r} at {getattr(ex.exc, 'where', None)}"))
+            return
         info.setdefault("symbols", {})[sname] = dict(b.names)   # input symbols of the scenario (used by the CPython cross-check)
         args = [b.conv(a) for a in call.get("args", [])]
         kwargs = {k: b.conv(v) for k, v in call.get("kwargs", {}).items()}
